@@ -650,6 +650,14 @@ def b_max(ip, args, kw, ctx):
 
 
 def b_range(ip, args, kw, ctx):
+    if len(args) == 3 and not isz(args[0]) and not isz(args[2]) and isz(args[1]) and args[2] > 0:
+        # range(a, symbolic stop, step): fork on the (small) number of iterations
+        a, stop, step = args
+        conds = [stop <= a] + [z3.And(stop > a + (k - 1) * step, stop <= a + k * step) for k in range(1, 9)] + [stop > a + 8 * step]
+        k = ctx.choose([simp(c) for c in conds])
+        if k == 9:
+            raise _uns("range() with a symbolic bound needing more than 8 iterations")
+        return range(a, a + k * step, step)
     return range(*[ip.need_concrete_int(a, ctx) for a in args])
 
 
